@@ -291,6 +291,8 @@ theorem getPatternItem_good (ptn : Array UInt8) (pb : PB) (hi : pb.i ≤ ptn.siz
                 simp only
                 split
                 · -- %f
+                  split
+                  · simp only [throw, throwThe, MonadExceptOf.throw, GoodPB, benign]
                   have hg := getCharClass_good ptn pb2 h2.2
                   cases hc : getCharClass ptn pb2 with
                   | error e => rw [hc] at hg; simp only [GoodPB]; exact hg
